@@ -54,4 +54,12 @@ example : Copia.Gen.Loops.archiveLoadGen (some [1, 1]) (fun b => some (b, [7])) 
 example : Copia.Gen.Loops.archiveLoadGen (some [1]) (fun b => some (b, [8])) (fun a => a.1.length) (fun a => a.2) [7] = none := by decide
 example : Copia.Gen.Loops.archiveLoadGen (A := List Nat × List Nat) (some [1]) (fun _ => none) (fun a => a.1.length) (fun a => a.2) [7] = none := by decide
 
+/-- `archive.rs::archive_path` (translated): under one HOME, two pairs' records live in the same file only if the pair hashes are equal — with
+`C07.source_pair_key_is_injective` (the hash's input determines the ordered pair of canonical roots) a record is never read as another pair's -/
+theorem source_archive_path_is_injective (home : Option (List Char)) (p1 p2 : List Char)
+    (h : Copia.Gen.Loops.archivePathGen home p1 = Copia.Gen.Loops.archivePathGen home p2) : p1 = p2 := by
+  unfold Copia.Gen.Loops.archivePathGen at h
+  simp only [Id.run, pure, List.cons.injEq, and_true, true_and] at h
+  exact List.append_cancel_right h
+
 end Copia.C07
